@@ -23,7 +23,14 @@ pub static C16: C16Prop = C16Prop;
 
 /// a delay in ms and a spelling that denotes exactly that value
 fn spelled(rng: &mut Rng) -> (u64, String) {
-    match rng.below(13) {
+    match rng.below(15) {
+        // a fractional number of milliseconds is rounded to the nearest one (a truncating conversion would
+        // shorten these by 1 ms, "0.9ms" to no delay at all)
+        13 => {
+            let n = rng.range(0, 40);
+            if rng.below(2) == 0 { (n + 1, format!("{}.9ms", n)) } else { (n + 1, format!("{}.5ms", n)) }
+        }
+        14 => (1_001, "1.0007s".to_string()),
         7 => {
             // above 65 535 ms (what a 16 bit field could hold in the binary model)
             let n = rng.range(2, 4);
